@@ -128,6 +128,56 @@ def tri(x, u):
     return t if t <= u else 2 * u - t
 
 
+# ------------------------------------------------------------------ definite intermediate overflow (witness search on the abstract semantics)
+BITS = {'i8': 8, 'i16': 16, 'i32': 32, 'i64': 64, 'isize': 64, 'u8': 8, 'u16': 16, 'u32': 32, 'u64': 64, 'usize': 64}
+
+
+def trange(ty):
+    b = BITS[ty]
+    return (-(1 << (b - 1)), (1 << (b - 1)) - 1) if ty[0] == 'i' else (0, (1 << b) - 1)
+
+
+def candidates(ty):
+    lo, hi = trange(ty)
+    c = {lo, lo + 1, 0, 1, 2, 5, hi // 2, hi // 2 + 1, hi - 1, hi, hi - hi // 4}
+    if lo < 0: c |= {-1, -2, -5, lo // 2, lo // 2 - 1, -(hi // 4) * 3}
+    return sorted(c)
+
+
+def overflow_rule(ctx, key, rs, names, ty, law, w):
+    """search for an input where the documented result is representable but a checked intermediate operation of the integer type overflows;
+    the witness is validated on the abstract path set (the path is feasible there, the operation's ideal value leaves the type's range)"""
+    cr = eval_root(rs)
+    lo, hi = trange(ty)
+    found = {}
+    n = 0
+    for vals in itertools.product(*[candidates(ty)] * len(names)):
+        exp = law(*vals)
+        if exp is None or exp == 'panic' or not (lo <= exp <= hi): continue
+        env = mkenv(dict(zip(names, vals)))
+        try: p = cr.run(env)
+        except (AssertionError, ZeroDivisionError, KeyError): continue
+        if p.out != 'ret': continue
+        n += 1
+        for e in p.events:
+            if e[0] != 'ovf': continue
+            opn = e[1]
+            if not opn.endswith(':' + ty): continue
+            t = p.term(e[2])
+            try: v = value(t, env)
+            except (ZeroDivisionError, KeyError): continue
+            if not (lo <= v <= hi):
+                site = '%s(%s)' % (opn.split(':')[0], str(t)[:80])
+                if site not in found: found[site] = (vals, v, exp)
+    ctx.evals = getattr(ctx, 'evals', 0) + n
+    ctx.counts['overflow-witness-points:' + key] = n
+    if not found:
+        ctx.ob(key + '/no-overflow-witness', n > 0, 'witness search: no input among the boundary candidates makes a checked intermediate operation overflow while the result is representable (bounded search, not a proof of absence)', w, '%d candidate inputs' % n, 'no candidate evaluated')
+    for site, (vals, v, exp) in sorted(found.items()):
+        ctx.ob('%s/overflow/%s' % (key, site), False, 'witness: a checked intermediate operation of the operand type overflows (panic in debug builds, wrapped value in release) although the documented result is representable', w,
+               'result %s is representable in %s' % (exp, ty), 'inputs %s = %s: intermediate value %s is outside %s\'s range' % (names, list(vals), v, ty))
+
+
 def run(ctx):
     ctx.level = 'other'
     ctx.explanation = ('Clamp / range test / partial_min / partial_max touch their scalars only through comparisons: the MIR path set of each of the 22 implementing types is evaluated on all 13 weak orderings of (value, lower, upper) '
@@ -183,6 +233,7 @@ def run(ctx):
                 else:
                     xs = list(range(-7, 8)) if cls == 'sint' else list(range(0, 12)); us = list(range(-2, 5)) if cls == 'sint' else list(range(0, 5))
                     grid_check(ctx, key + '/law', rs, n2, [xs, us], lambda x, u: 'panic' if not u > 0 else x % u, 'grid (ideal integers, bounded): wrapped(x,u) is the value in [0,u) congruent to x mod u; panics iff not u > 0', w)
+                    if not tag.startswith('W') and r.name.startswith('r_wrapped_'): overflow_rule(ctx, key, rs, n2, tag, lambda x, u: None if not u > 0 else x % u, w)
             elif k == 'wrapped_between':
                 if cls == 'float':
                     xs = [Fraction(i, 2) for i in range(-7, 12)]; los = [-1, 0, H, 1, 2]; his = [-1, 0, H, 1, 2, 7 * H]
@@ -192,6 +243,7 @@ def run(ctx):
                     if not (lo < hi) or not (lo >= 0) or not (hi > 0): return 'panic'
                     return lo + (x - lo) % (hi - lo)
                 grid_check(ctx, key + '/law', rs, n3, [xs, los, his], orc, 'grid (%s): wrapped_between is the value in [lower,upper) congruent to x modulo upper-lower; panics iff not (lower < upper, lower >= 0, upper > 0)' % ('exact rationals' if cls == 'float' else 'ideal integers, bounded'), w)
+                if cls != 'float' and not tag.startswith('W') and r.name.startswith('r_wrapped_between_'): overflow_rule(ctx, key, rs, n3, tag, lambda x, lo, hi: None if (not (lo < hi) or not (lo >= 0) or not (hi > 0)) else lo + (x - lo) % (hi - lo), w)
                 if cls == 'float':
                     rets = [p for p in rs.paths if p.out == 'ret']
                     x, lo, hi = sym(n3[0]), sym(n3[1]), sym(n3[2]); d = hi - lo
@@ -202,6 +254,7 @@ def run(ctx):
                 else:
                     xs = list(range(-9, 14)) if cls == 'sint' else list(range(0, 20)); us = list(range(-1, 5)) if cls == 'sint' else list(range(0, 5))
                 grid_check(ctx, key + '/law', rs, n2, [xs, us], lambda x, u: 'panic' if not u > 0 else tri(x, u), 'grid (%s): pingpong is the triangle wave of period 2*upper with values in [0,upper]; panics iff not upper > 0' % ('exact rationals' if cls == 'float' else 'ideal integers, bounded'), w)
+                if cls != 'float' and not tag.startswith('W'): overflow_rule(ctx, key, rs, n2, tag, lambda x, u: None if not u > 0 else tri(x, u), w)
                 if cls == 'float':
                     rets = [p for p in rs.paths if p.out == 'ret']
                     x, u = sym(n2[0]), sym(n2[1]); t = x - fn('floor', x / (u + u)) * (u + u)
